@@ -30,10 +30,19 @@ func WalkWithReporter(logStream, dbStream io.Reader, dateFormat string, pc parse
 	return WithResolvedDatabase(dbStream, pc, rc,
 		func(nl shared.DBNodeMap) error {
 			r := rpCb(rpc, nl)
-			defer r.Flush()
 			f := filter.GetIntervalNodeFilter(fc)
-			return WalkNodesInStream(logStream, dateFormat, pc, f, r)
+			return FlushReporter(r, WalkNodesInStream(logStream, dateFormat, pc, f, r))
 		})
+}
+
+// FlushReporter flushes the reporter after the walk and returns the error of
+// the walk or, when the walk succeeded, the error of the flush, so that a
+// report that could not be written is not reported as success.
+func FlushReporter(r reporter.Reporter, err error) error {
+	if flushErr := r.Flush(); err == nil {
+		return flushErr
+	}
+	return err
 }
 
 func LoadDatabaseFromStream(dbStream io.Reader, pc parser.Config) (shared.DBNodeMap, error) {
